@@ -359,6 +359,9 @@ class Grammar:
             if node in weights:  # classes that are not reachable from the start symbol have no weight
                 get_gengy(node)["weight"] = weights[node]
             nodes.append(node)
+        for node in self.alternatives:  # abstract layers that were only registered through their subclasses
+            if node in weights:
+                get_gengy(node)["weight"] = weights[node]
         self.__init__(starting_symbol, nodes, self.expansion_depthing)
         self.register_type(starting_symbol)
         self.preprocess()
